@@ -167,6 +167,16 @@ pub fn run_vcase(case: &VCase, c: &mut Chooser, seed_rng: Rng) -> VResult {
             let (loc, msg) = take_last_panic().unwrap_or_default();
             if is_crate_location(&loc) {
                 world.violate(&["C17"], "panic", "interval", 0, -1, format!("panicked at {}: {}", loc, msg));
+            } else if msg.starts_with("HARNESS: VCLOCK:") {
+                // numbers delivered with no period elapsed: exactly what C16 forbids
+                world.violate(
+                    &["C16"],
+                    "ticks-without-elapsed-period",
+                    "interval",
+                    0,
+                    -1,
+                    format!("{} (periods in this case: {:?} us)", msg, case.periods),
+                );
             } else {
                 world.harness_fault(format!("harness panic at {}: {}", loc, msg));
             }
@@ -194,7 +204,7 @@ fn oracle(case: &VCase, world: &Arc<World>, exec: &VExec, rts: &[SubRt]) {
     let now = exec.now();
     let mut g = world.lock();
     let g = &mut *g;
-    if !g.violations.is_empty() {
+    if g.violations.iter().any(|v| v.props.contains(&"C16")) {
         return;
     }
     for (i, r) in rts.iter().enumerate() {
